@@ -37,6 +37,8 @@ DIR_LAYOUTS = [
 ]
 # A literal directory level *between* placeholder levels (finding #14 of DESIGN section 6)
 DIR_LAYOUTS.append(("y/lit/m", ["{year}", "fixed", "{month}"], "month"))
+# wildcard inside a directory level (the asterisk is typhon's documented wildcard)
+DIR_LAYOUTS.append(("y/m*/d", ["{year}", "m{month}_*", "{day}"], "day"))
 
 FILE_PARTS = {
     "full": "{year}{month}{day}_{hour}{minute}{second}-{end_year}{end_month}{end_day}T"
@@ -87,7 +89,10 @@ class Layout:
         fill = {"sat": f["sat"]} if self.with_sat else {}
         name = T.render(self.template, f["t0"], f["t1"], fill)
         if self.wildcard:
-            name = name[:-len(self.suffix)] + junk + self.suffix
+            name = name[:-len(self.suffix) - 1] + junk + self.suffix
+        if "*" in name:
+            # wildcard in a directory level: any text; two spellings per month on purpose
+            name = name.replace("*", ["a", "bb"][f["t0"].day % 2])
         return base.rstrip("/") + "/" + name
 
 
